@@ -258,10 +258,17 @@ RING_ALKENE_SMILES = ['C1CCC/C=C/CC1', 'C1CCC/C=C\\CC1', 'C1CC/C=C\\CC1', 'C1CCC
                       'C1CCCCC/C=C/CCCCC1']
 # tetrahedral centres whose arms differ ONLY by the configuration of a double bond (and controls: the same with another labelled
 # centre, double bonds whose ends differ only by tetrahedral configuration, allene arms); no other labelled centre in the molecule
-EZ_DEPENDENT_SMILES = ['C/C=C/[C@H](O)/C=C\\C', 'C/C=C/[C@@H](O)/C=C\\C', 'C/C=C/[C@H](/C=C\\C)C1CC1', 'F/C=C/[C@](C)(Cl)/C=C\\F', 'C/C=C/[C@H](N)/C=C\\C',
+EZ_DEPENDENT_SMILES = ['C/C=C/[C@H](O)/C=C\\C', 'CC/C(C)=C\\[C@H](N)/C=C(\\C)CC', 'C/C(CC)=C/[C@@H](N)/C=C(/CC)C',
+                       'F/C(Cl)=C\\[C@H](N)/C=C(\\Cl)F', 'C/C=C/[C@@H](O)/C=C\\C', 'C/C=C/[C@H](/C=C\\C)C1CC1', 'F/C=C/[C@](C)(Cl)/C=C\\F', 'C/C=C/[C@H](N)/C=C\\C',
                        'C/C=C\\[C@H](O)/C=C/C', 'CC/C=C/[C@@H](F)/C=C\\CC', 'C/C=C/[C@H](O)/C=C\\C.[Na+].[Cl-]', 'O[C@H](/C=C/c1ccccc1)/C=C\\c1ccccc1',
                        'C/C=C/[C@]1(/C=C\\C)CCO1', 'C/C=C/[C@H](O)/C=C\\C.F[C@H](Cl)Br', 'F/C=C([C@H](C)Cl)/[C@@H](C)Cl', 'C[C@@H](O)[C@H](O)[C@H](C)O',
-                       'C/C=C/C(/C=C\\C)=C/F', 'C/C=C/[C@H](C=C)/C=C\\C', 'C/C=C/[C@H](CC=C)/C=C\\C']
+                       'C/C=C/C(/C=C\\C)=C/F', 'C/C=C/[C@H](C=C)/C=C\\C', 'C/C=C/[C@H](CC=C)/C=C\\C',
+                       'CC/C(C)=C\\[C@H](O)/C=C(/CC)C', 'CC/C(C)=C(F)\\[C@H](N)/C(F)=C(\\C)CC', 'CC/C(C)=C/[C@H](N)/C=C(\\C)CC',
+                       'OC/C(C)=C\\[C@H](N)/C=C(\\C)CO', 'CC/C(C)=C\\[C@]1(/C=C(\\C)CC)CCO1']
+# the members whose centre is chiral only through two constitutionally equal arms with two different far-end substituents each: these
+# go through many atom numberings (the perception must not depend on which substituent has the lower number)
+NUMBERING_FAMILY = ['CC/C(C)=C\\[C@H](N)/C=C(\\C)CC', 'CC/C(C)=C\\[C@@H](N)/C=C(\\C)CC', 'F/C(Cl)=C\\[C@H](N)/C=C(\\Cl)F',
+                    'CC/C(C)=C(F)\\[C@H](N)/C(F)=C(\\C)CC', 'C/C=C/[C@H](O)/C=C\\C', 'CC/C(C)=C/[C@H](N)/C=C(\\C)CC']
 BARE_SMILES = ['[Na]', '[K]', '[Li]', '[Mg]', '[Ca]', '[Al]', '[B]', '[Si]', '[P]', '[S]', '[Se]', '[Ge]', '[As]', '[Sn]', '[Pb]',
                '[Na].[Cl]', '[S].C', '[Be]', '[Ga]', '[In]', '[Sb]', '[Bi]', '[Te]', '[Rb]', '[Cs]', '[Sr]', '[Ba]']
 
@@ -854,6 +861,13 @@ def small_space(ck, salt):
     Yields (smiles, permutation, renumbered RDKit molecule)."""
     from rdkit import Chem
     rng = random.Random(f'{ck.seed}:c20:small:{salt}')
+    for smi in NUMBERING_FAMILY:
+        rd = Chem.MolFromSmiles(smi)
+        idx = list(range(rd.GetNumAtoms()))
+        for _ in range(60 if ck.tier == 'thorough' else 4):
+            perm = idx[:]
+            rng.shuffle(perm)
+            yield smi, tuple(perm), Chem.RenumberAtoms(rd, perm)
     for smi in SMALL_SPACE:
         p = Chem.SmilesParserParams()
         p.removeHs = False
@@ -861,7 +875,7 @@ def small_space(ck, salt):
         n = rd.GetNumAtoms()
         perms = list(itertools.permutations(range(n)))
         if ck.tier != 'thorough':
-            perms = rng.sample(perms, 5)
+            perms = rng.sample(perms, 4)
         elif len(perms) > 120:
             perms = rng.sample(perms, 60)       # six-atom molecules: 60 of the 720 numberings
         for perm in perms:
@@ -927,13 +941,22 @@ def correspondence(ck, n_corpus):
             if m2 is not None and rng.random() < (0.3 if full else 0.15):
                 corr_to(cs, tag + '|back', m2)
                 smiles_of[tag + '|back'] = smi
+    erased_by = {}
     for smi, perm, rd in small_space(ck, 'corr'):
         ck.count('corr-input:small space (every numbering)')
-        tag = f'{smi}|numbering {"".join(map(str, perm))}'
+        tag = f'{smi}|numbering {".".join(map(str, perm))}'
         smiles_of[tag] = smi
-        m2, _ = corr_from(cs, tag, rd)
+        m2, tp = corr_from(cs, tag, rd)
         if m2 is not None:
             corr_to(cs, tag + '|back', m2, keep=True)
+            if tp is not None and tp.pre is not None:
+                # the parameter of the model (what fix_stereo erases), in the numbering of the string: one set per molecule
+                er = frozenset(perm[x[0] - 1] for x in tp.pre['atoms'] if x[9] is not None and m2.atom(x[0]).stereo is None)
+                first = erased_by.setdefault(smi, (er, perm))
+                if first[0] != er:
+                    cs.add_big('false', (tag, 'the labels fix_stereo erases depend on the atom numbering', sorted(er), 'but', sorted(first[0]), 'for numbering', first[1]))
+                else:
+                    cs.add('true', (tag, 'erase set independent of the numbering', sorted(er)))
     for tag, rd in rd_malformed():
         if rd is None:
             ck.count('corr-input:malformed rdkit (RDKit cannot hold it)')
